@@ -60,6 +60,13 @@ class Sched:
             return Cmp('ult', self.posvar(t, key), lo, PW)
         return bf
 
+    def upto(self, t, r):
+        hi = self.c[t][r]
+
+        def up(key):
+            return Cmp('ult', self.posvar(t, key), hi, PW)
+        return up
+
     def finish(self):
         """number the positions, constrain the switch points"""
         m = self.m
@@ -100,10 +107,11 @@ def run_threads(m, sc, log=None):
             m.win = sch.window(t, r)
             if m.win is None: continue
             m.before = sch.before(t, r)
+            m.upto = sch.upto(t, r)
             m.run_entry('vp_thread%d' % t)
             m.thread_exit()
             if log: log('    pass r%d t%d: %d terms, %d obligations, %.1fs' % (r, t, term.nterms(), len(m.obligations), time.time() - t0))
-    m.win = None; m.before = None
+    m.win = None; m.before = None; m.upto = None
     m.hard_loop_cap = cap0; m.sym_loop_cap = scap0
     m.cur = m.threads[0]
     m.pass_no = K * T + 1
